@@ -370,6 +370,18 @@ class Sym:
                 for f_ in self._implied_by_bool(c[1], bool(v)):
                     if f_ not in res and f_ not in extra:
                         extra.append(f_)
+        # a branch on the result of a crate-local bool function: what holds on every path on
+        # which it returns that value, arguments substituted
+        for (cond, val) in list(res):
+            c, v = cond, val
+            while c[0] == "un" and c[1] == "Not" and isinstance(v, bool):
+                c, v = c[2], (not v)
+            if c[0] in ("call", "callat") and isinstance(v, (bool, int)):
+                alts = call_alternatives(getattr(fn, "prog", None), c, bool(v))
+                if alts:
+                    for f_ in set.intersection(*alts):
+                        if f_ not in res and f_ not in extra:
+                            extra.append(f_)
         return res + extra
 
     def _implied_by_bool(self, l, val, depth=0):
@@ -404,6 +416,84 @@ class Sym:
             return out
         finally:
             self._bool_busy = busy
+
+
+def _subst(e, mapping):
+    if not isinstance(e, tuple):
+        return e
+    if e in mapping:
+        return mapping[e]
+    return tuple(_subst(x, mapping) if isinstance(x, tuple) else x for x in e)
+
+
+_ALT_BUSY = set()
+
+
+def call_alternatives(prog, e, val):
+    """one set of facts (cond, bool) per path on which the crate-local bool function called by e
+    returns `val` (the switch edges taken + the returned expression == val), arguments
+    substituted; None when e is not such a call or the callee has loops / too many paths"""
+    if prog is None or not isinstance(e, tuple) or not e or e[0] not in ("call", "callat"):
+        return None
+    res = e[4] if e[0] == "callat" else e[3]
+    args = e[3] if e[0] == "callat" else e[2]
+    g = prog.fns.get(res) if isinstance(res, str) else None
+    if g is None or g.d.get("output") != "bool" or g.kind == "closure" or len(args) != g.arg_count:
+        return None
+    if g.id in _ALT_BUSY:
+        return None
+    _ALT_BUSY.add(g.id)
+    try:
+        gs = Sym(g)
+        mapping = {("param", i + 1, g.local_name(i + 1)): a for i, a in enumerate(args)}
+        edge = {}
+        for (p_, s_, cond, v) in gs.edge_facts():
+            edge.setdefault((p_, s_), []).append((cond, v))
+        alts = []
+        count = [0]
+
+        def value_at(path):
+            last = None
+            on = set(path)
+            for (bb, j, rv, w) in g.defs().get(0, []):
+                if bb in on:
+                    k = path.index(bb)
+                    if last is None or k >= last[0]:
+                        last = (k, gs.rvalue(rv, bb, (bb, j)))
+            return last[1] if last else None
+
+        def walk(b, path, facts):
+            if count[0] > 64 or b in path:
+                count[0] = 10 ** 6
+                return
+            path = path + [b]
+            blk = g.blocks[b]
+            if blk["c"]:
+                return
+            t_ = blk["t"]
+            if t_ and t_[0] == "ret":
+                count[0] += 1
+                r = value_at(path)
+                if r is None:
+                    count[0] = 10 ** 6
+                    return
+                fs = set(facts)
+                if r[0] == "const" and isinstance(r[1], bool):
+                    if r[1] != val:
+                        return
+                else:
+                    fs.add((_subst(r, mapping), val))
+                alts.append(fs)
+                return
+            for s_ in g.succ[b]:
+                extra = [(_subst(c_, mapping), v_) for c_, v_ in edge.get((b, s_), []) if isinstance(v_, bool)]
+                walk(s_, path, facts + extra)
+        walk(0, [], [])
+        if count[0] >= 10 ** 6:
+            return None
+        return alts
+    finally:
+        _ALT_BUSY.discard(g.id)
 
 
 def unstable_locals(e):
